@@ -192,10 +192,18 @@ def correspond(ctx):
         reqs.append(req)
         impls.append(impl)
         keys.append((h, w, sc, prim, form, off, alias))
+    for case in call_form_cases(ctx):
+        for (req, impl, key) in run_call_form(case, ctx.rng):
+            reqs.append(req)
+            impls.append(impl)
+            keys.append(key)
     outs = m.batch(reqs)
     for k, o, impl in zip(keys, outs, impls):
         ctx.count("form:" + k[4])
+        if len(k) > 7:
+            ctx.count("call:" + k[7])
         ctx.corr("post_crossable", k, parse_model(o), impl)
+    positional_calls(ctx)
     # the auxiliary graph on its own (node count and edge list, insertion order)
     for (h, w) in shapes_upto(12):
         H, W = h + 1, w + 1
@@ -203,6 +211,115 @@ def correspond(ctx):
         impl = impl_split_graph(h, w)
         ctx.corr("split_graph", (H, W), o.strip(), impl)
     spec_vs_oracle(ctx)
+
+
+# ---- other ways of making the same call (arguments omitted / by keyword / left to the configuration, the
+# single-cycle alias) and histories (two calls on one Solver and one frame)
+
+CALL_FORMS = ["omit", "allkw", "config-none", "alias-omit", "alias-allkw", "twice", "twice-mutated", "twice-other"]
+
+
+def call_form_cases(ctx):
+    rng = ctx.rng
+    shapes = shapes_upto(9 if not ctx.thorough else 12)
+    for (h, w) in shapes:
+        for sc in (False, True):
+            for cf in CALL_FORMS:
+                if cf.startswith("alias") and not sc:
+                    continue
+                for prim in (False, True):
+                    form = "frame" if cf in ("omit", "alias-omit") or rng.random() < 0.5 else rng.choice(EDGE_FORMS[1:])
+                    yield h, w, sc, prim, form, rng.choice([0, 1, 2]), cf
+
+
+def run_call_form(case, rng):
+    """[(model request, observed, key)] : one entry per call made"""
+    from cspuz import Solver, graph
+    from cspuz.configuration import config
+    (h, w, sc, prim, form, off, cf) = case
+    f = graph.active_edges_connected_crossable
+    g = graph.active_edges_single_cycle_crossable
+    s = Solver()
+    for i in range(off):
+        if i % 2:
+            s.int_var(0, 5)
+        else:
+            s.bool_var()
+    before_frame = exprio.show_state(s)
+    fr = build_frame(s, h, w, form, rng)
+    hz0, vt0 = exprio.show_list(fr.horizontal.data), exprio.show_list(fr.vertical.data)
+
+    def request(first, sc_, prim_):
+        if first and form == "frame":
+            return "F %d %d %d %d %s" % (h, w, sc_, prim_, before_frame)
+        return "X %d %d %d %d %s H %s V %s" % (h, w, sc_, prim_, exprio.show_state(s), hz0, vt0)
+
+    def observed(r):
+        if r[0] != "ok":
+            return r
+        if (exprio.show_list(fr.horizontal.data), exprio.show_list(fr.vertical.data)) != (hz0, vt0):
+            return ("frame-changed", None)
+        return ("ok", (exprio.show_state(s),) + norm_result(r[1], h + 1, w + 1))
+
+    out = []
+    old = config.use_graph_primitive
+    try:
+        if cf in ("omit", "config-none", "alias-omit"):
+            config.use_graph_primitive = prim      # the route is left to the configuration
+        else:
+            config.use_graph_primitive = not prim  # ... and must be ignored when the argument is given
+        if cf == "omit":
+            calls = [(sc, prim, (lambda: f(s, fr, single_cycle=True)) if sc else (lambda: f(s, fr)))]
+        elif cf == "allkw":
+            calls = [(sc, prim, lambda: f(use_graph_primitive=prim, single_cycle=sc, is_active_edge=fr, solver=s))]
+        elif cf == "config-none":
+            calls = [(sc, prim, lambda: f(s, fr, single_cycle=sc, use_graph_primitive=None))]
+        elif cf == "alias-omit":
+            calls = [(True, prim, lambda: g(s, fr))]
+        elif cf == "alias-allkw":
+            calls = [(True, prim, lambda: g(use_graph_primitive=prim, is_active_edge=fr, solver=s))]
+        elif cf in ("twice", "twice-mutated"):
+            calls = [(sc, prim, lambda: f(s, fr, single_cycle=sc, use_graph_primitive=prim))] * 2
+        elif cf == "twice-other":
+            calls = [(sc, prim, lambda: f(s, fr, single_cycle=sc, use_graph_primitive=prim)),
+                     (not sc, not prim, lambda: f(s, fr, single_cycle=not sc, use_graph_primitive=not prim))]
+        else:
+            raise ValueError(cf)
+        for k, (sc_, prim_, thunk) in enumerate(calls):
+            req = request(k == 0, sc_, prim_)
+            r = vlib.guarded(thunk)
+            out.append((req, observed(r), (h, w, sc, prim, form, off, False, "%s#%d" % (cf, k + 1))))
+            if r[0] != "ok":
+                break
+            if cf == "twice-mutated":         # what was returned belongs to the caller
+                for a in r[1]:
+                    for i in range(len(a.data)):
+                        a.data[i] = None
+    finally:
+        config.use_graph_primitive = old
+    return out
+
+
+def positional_calls(ctx):
+    """single_cycle / use_graph_primitive are keyword-only: passing them by position is a TypeError; should that
+    ever be allowed, the call must mean the same as the keyword form"""
+    from cspuz import Solver, graph
+    from cspuz.grid_frame import BoolGridFrame
+    for (h, w) in [(0, 0), (1, 1), (1, 2), (2, 2), (2, 3)]:
+        for sc in (False, True):
+            for prim in (False, True):
+                for n in (1, 2):
+                    s1, s2 = Solver(), Solver()
+                    f1, f2 = BoolGridFrame(s1, h, w), BoolGridFrame(s2, h, w)
+                    args = (sc, prim)[:n]
+                    kw = {} if n == 2 else {"use_graph_primitive": prim}
+                    r = vlib.guarded(lambda: graph.active_edges_connected_crossable(s1, f1, *args, **kw))
+                    if r[0] == "err":
+                        got = r[1]
+                    else:
+                        graph.active_edges_connected_crossable(s2, f2, single_cycle=sc, use_graph_primitive=prim)
+                        got = "TypeError" if exprio.show_state(s1) == exprio.show_state(s2) else "another program"
+                    ctx.corr("positional-options", (h, w, sc, prim, n), "TypeError", got)
 
 
 def impl_split_graph(h, w):
